@@ -370,7 +370,11 @@ func (re *Regexp) findAllRunesIndex(runner *Runner, input []rune, startAt, n int
 			start, end := makeIndex(m.RuneIndex, m.RuneLength)
 			flat = append(flat, start, end)
 			out = append(out, flat[len(flat)-2:len(flat):len(flat)])
+			// where this match ends in scan direction
 			prevEnd = m.RuneIndex + m.RuneLength
+			if re.RightToLeft() {
+				prevEnd = m.RuneIndex
+			}
 			if n > 0 {
 				n--
 			}
